@@ -477,6 +477,20 @@ class Interp:
             return Closure(e, env, self)
         if isinstance(e, ast.Attribute):
             base = self.ev(e.value, env)
+            if isinstance(base, tuple) and len(base) == 3 and \
+                    base[0] == 'super':
+                _, ci, slf = base
+                start = slf.attrs.get('__class__') or ci
+                mro = list(self.repo.mro(start))
+                if ci not in mro:
+                    mro = list(self.repo.mro(ci))
+                for c in mro[mro.index(ci) + 1:]:
+                    if isinstance(c, model.ClassInfo) and \
+                            e.attr in c.methods:
+                        return ('bound', c.methods[e.attr], slf)
+                if e.attr == '__init__':
+                    return ('builtin', 'object.__init__')
+                raise Unsupported('super().%s' % e.attr)
             if isinstance(base, Obj):
                 if e.attr in base.attrs:
                     return base.attrs[e.attr]
@@ -546,7 +560,30 @@ class Interp:
             return a >= b
         raise Unsupported('comparison')
 
+    def _super(self, e, env):
+        """Zero-argument super() inside a method of a repository class."""
+        fn = model.enclosing(e, (ast.FunctionDef, ast.AsyncFunctionDef))
+        cd = model.enclosing(fn, ast.ClassDef) if fn is not None else None
+        if fn is None or cd is None or getattr(fn, '_parent', None) \
+                is not cd or not fn.args.args:
+            raise Unsupported('super() outside a method')
+        ci = None
+        for m in self.repo.modules.values():
+            for c in m.classes.values():
+                if c.node is cd:
+                    ci = c
+        slf = env.get(fn.args.args[0].arg)
+        if ci is None or not isinstance(slf, Obj):
+            raise Unsupported('super() of an unknown class')
+        return ('super', ci, slf)
+
     def call(self, e, env):
+        if isinstance(e.func, ast.Name) and e.func.id == 'super' and \
+                not e.args and not e.keywords and 'super' not in env:
+            r = self.oracle('builtins.super', [], {})
+            if r is not None:
+                return r[0]
+            return self._super(e, env)
         f = self.ev(e.func, env)
         site = (e, env, self.mod)
         args = []
@@ -639,6 +676,8 @@ class Interp:
             return True
         args = [[self.force(x) for x in a] if isinstance(a, list) and any(
             isinstance(x, Thunk) for x in a) else a for a in args]
+        if f == ('builtin', 'object.__init__'):
+            return None
         if isinstance(f, tuple) and f[0] == 'builtin':
             name = f[1]
             self.shared['call'] = site
@@ -872,6 +911,20 @@ class Interp:
                 isinstance(a, (int, type(None))) for a in args[1:]):
             import itertools
             return list(itertools.islice(lst(args[0]), *args[1:]))
+        if name == 'itertools.accumulate' and len(args) in (1, 2) and \
+                set(kwargs) <= {'initial'}:
+            items = lst(args[0])
+            out = []
+            if kwargs.get('initial') is not None:
+                out.append(kwargs['initial'])
+            for x in items:
+                if not out:
+                    out.append(x)
+                elif len(args) == 2:
+                    out.append(call(args[1], out[-1], x))
+                else:
+                    out.append(self.binop(ast.Add(), out[-1], x))
+            return out
         if name == 'operator.attrgetter' and args and all(
                 isinstance(a, str) for a in args):
             return ('attrgetter', tuple(args))
